@@ -122,6 +122,9 @@ func Discharge(o *Obligation, scratch string, timeoutS int, only string) {
 		if o.Kind == "recovers" {
 			o.Backend = "recover-rule"
 		}
+		if o.Kind == "nopanic.callee" {
+			o.Backend = "no-panic-rule"
+		}
 		return
 	}
 	base := filepath.Join(scratch, sanitize(o.Name))
